@@ -34,6 +34,9 @@ def build_cases(chk):
         n = 6000
     cases += [scen_proc.gen_case(rng, chk.tier) for _ in range(n)]
     cases += [scen_proc.heavy_log_case(rng, sig) for sig in ([9, 15] if chk.tier == 'quick' else [9, 15, 10, 1] * 5)]
+    cases += [scen_proc.random_kill_case(rng, chk.tier) for _ in range(40 if chk.tier == 'quick' else 1200)]
+    cases += [scen_proc.flush_kill_case(rng) for _ in range(6 if chk.tier == 'quick' else 60)]
+    cases += [scen_proc.midmsg_kill_case(rng) for _ in range(12 if chk.tier == 'quick' else 120)]
     return cases
 
 
@@ -71,17 +74,20 @@ def run(chk):
                              '(wait/as_completed blocked, exception() raises) - defect F13 is present')
             break
     dist = collections.Counter(scen_proc.case_class(c) for c, _ in results)
-    chk.cov['distribution'] = dict(case_classes=dict(sorted(dist.items())),
+    rnd = collections.Counter(str(r.get('resolved_phase')) for c, r in results if (c.get('kill') or {}).get('phase') == 'random')
+    chk.cov['distribution'] = dict(random_kill_resolved_phase=dict(rnd), case_classes=dict(sorted(dist.items())),
                                    first_accessor=dict(collections.Counter(c['order'][0] for c, _ in results)),
                                    wall_median_s=sorted(r.get('wall', 0) for _, r in results)[len(results) // 2])
     for case, res in results:
-        if case.get('kill') and scen_proc.nontrivial(case, res):
+        if case.get('kill') and scen_proc.nontrivial(case, res) and (len(chk.cov['samples']) < 2 or case['kill']['phase'] == 'random'):
             chk.sample(dict(case=case, answers=res.get('answers'), early=res.get('early_answers')))
     chk.cov['rule'] = (
         'cases = a seeded slice (quick) / all (thorough) of the boundary product {outcome class} x {kill phase before/'
         'during/between/after} x {signal 9, 15, 10, 1} x {first accessor} for Process and Thread, plus random cases '
-        '(outcome incl. value/exception/exit-code universes, kill, accessor order, early non-blocking asks), plus kills of a '
-        'child that is logging heavily; each case runs the REAL mpservice Process/Thread in a fresh interpreter in its own '
+        '(outcome incl. value/exception/exit-code universes, kill, accessor order, early non-blocking asks, first accessor already '
+        'blocked when the signal arrives), plus signals at random moments (anchored at start() or at the target\'s start; the '
+        'answers must be the table row of some phase), plus kills of a child that is logging heavily or still flushing its '
+        'logs after it sent its result; each case runs the REAL mpservice Process/Thread in a fresh interpreter in its own '
         'session; non-trivial = the worker was started and every accessor call in the case\'s order returned or was '
         'classified (HANG); distinct = distinct (case, canonical answers)')
     chk.trusted += TRUSTED
@@ -99,8 +105,8 @@ TRUSTED = [
 ]
 ASSUMPTIONS = [
     'signals considered are those whose disposition in the child is "terminate" (SIGINT is an exception in the target, i.e. a raise outcome)',
-    'a child killed after it sent both messages did not die in the middle of a log write (then the collector, which joins the logger '
-    'thread unboundedly on that path, would wait for an end mark that cannot arrive); when it dies before, the join is bounded (1 s)',
+    'when the child did not end by itself the collector gives the logger thread 1 s to drain what the dead child left in the log pipe '
+    '(it may hold a torn record or a held write lock); what the parent handles of a killed child\'s records is not part of C12/C20',
     'return values and exception arguments are picklable; sys.exit codes are reported modulo 256 by the OS',
     'Thread: the future object exists only once run() has begun; wait() in the few bytecodes between start() returning and that moment is not modelled',
 ]
